@@ -1,0 +1,67 @@
+// Copyright 2019 The Scriggo Authors. All rights reserved.
+// Use of this source code is governed by a BSD-style
+// license that can be found in the LICENSE file.
+
+//go:build verif
+
+package scriggo
+
+import "github.com/open2b/scriggo/internal/runtime"
+
+// This file exists only with the build tag "verif". It re-exports the
+// verification hooks of internal/runtime so that an external verification
+// harness (which cannot import an internal package) can install them.
+
+// VerifEvent is the event passed to the hook.
+type VerifEvent = runtime.VerifEvent
+
+// Kinds of VerifEvent.
+const (
+	VerifStep        = runtime.VerifStep
+	VerifBegin       = runtime.VerifBegin
+	VerifEnd         = runtime.VerifEnd
+	VerifSpawn       = runtime.VerifSpawn
+	VerifWatcher     = runtime.VerifWatcher
+	VerifAfterSelect = runtime.VerifAfterSelect
+	VerifCallNative  = runtime.VerifCallNative
+)
+
+// VerifOps maps the names of the operations a scheduler cares about to their
+// numeric values (the Op field of a step event; negated when an operand is a
+// constant).
+var VerifOps = map[string]int{
+	"Go":           int(runtime.OpGo),
+	"Send":         int(runtime.OpSend),
+	"Receive":      int(runtime.OpReceive),
+	"Select":       int(runtime.OpSelect),
+	"Case":         int(runtime.OpCase),
+	"Close":        int(runtime.OpClose),
+	"Print":        int(runtime.OpPrint),
+	"Range":        int(runtime.OpRange),
+	"CallNative":   int(runtime.OpCallNative),
+	"CallIndirect": int(runtime.OpCallIndirect),
+	"CallFunc":     int(runtime.OpCallFunc),
+	"CallMacro":    int(runtime.OpCallMacro),
+	"Load":         int(runtime.OpLoad),
+	"LoadFunc":     int(runtime.OpLoadFunc),
+	"GetVar":       int(runtime.OpGetVar),
+	"SetVar":       int(runtime.OpSetVar),
+	"GetVarAddr":   int(runtime.OpGetVarAddr),
+	"MethodValue":  int(runtime.OpMethodValue),
+	"Show":         int(runtime.OpShow),
+	"Text":         int(runtime.OpText),
+	"Return":       int(runtime.OpReturn),
+	"Defer":        int(runtime.OpDefer),
+	"Recover":      int(runtime.OpRecover),
+	"Panic":        int(runtime.OpPanic),
+	"TailCall":     int(runtime.OpTailCall),
+}
+
+// VerifSetHook installs (or, with nil, removes) the hook.
+func VerifSetHook(h func(*VerifEvent)) { runtime.SetVerifHook(h) }
+
+// VerifNativeName returns the package path and name of the native function of a call event.
+func VerifNativeName(ev *VerifEvent) (pkg, name string) { return runtime.VerifNativeName(ev.Native) }
+
+// VerifNativeFunc returns the Go function wrapped by the native function of a call event.
+func VerifNativeFunc(ev *VerifEvent) any { return runtime.VerifNativeFunc(ev.Native) }
